@@ -39,9 +39,86 @@ type known struct {
 	how  string
 }
 
+// registryUnderTasks runs the registry's own methods as cooperative tasks: readers (what the
+// announce worker, the switch and router workers and the connect manager call all the time)
+// against links that are registered and removed meanwhile. The tape picks the running task at
+// every lock operation of peering/ and m/. The locks have the semantics of sync.RWMutex,
+// including that a waiting writer keeps new readers out.
+func registryUnderTasks(e *core.Env) {
+	tp := e.Tape
+	var nodes []*node.Node
+	for i := 0; i < 4; i++ {
+		id := ident.Get(ident.Routable, 40+i)
+		n, err := node.New(fmt.Sprintf("t%d", i), id, node.BaseStore(id), node.Options{LinkOnly: true})
+		if err != nil {
+			e.Infra("node: %v", err)
+		}
+		nodes = append(nodes, n)
+	}
+	N := nodes[0]
+	fn := simnet.New(e)
+	var links []*simnet.Link
+	for i := 1; i <= 2; i++ {
+		l, _, err := fn.Connect(N, nodes[i], simnet.ConnectOpts{LabelAtA: m.SwitchLabel(10 + i), LabelAtB: 7, LiteB: tp.Chance(1, 3)})
+		if err != nil {
+			e.Infra("connect: %v", err)
+		}
+		links = append(links, l)
+	}
+	reads := func() {
+		for k, n := 0, 1+tp.Intn(3); k < n; k++ {
+			_ = N.Peering.IsStub()
+			_ = N.Peering.LinkCnt()
+			for _, l := range N.Peering.GetLinks() {
+				_ = N.Peering.GetLink(l.Peer())
+				_ = N.Peering.GetLinkByLabel(l.SwitchLabel())
+			}
+			_ = N.Peering.GetLinkByRemoteHost("nowhere")
+		}
+	}
+	var connErr error
+	tasks := []func(){reads}
+	if tp.Chance(1, 2) {
+		tasks = append(tasks, reads)
+	}
+	if tp.Chance(2, 3) {
+		tasks = append(tasks, func() { _, _, connErr = fn.Connect(N, nodes[3], simnet.ConnectOpts{LabelAtA: 13, LabelAtB: 7}) })
+	}
+	if len(tasks) == 1 || tp.Chance(2, 3) {
+		victim := links[tp.Intn(len(links))]
+		tasks = append(tasks, func() { victim.Close(nil) })
+	}
+	st := simsync.RunTasks(func(n, cur int) int {
+		if cur >= 0 && !tp.Chance(1, 2) {
+			return cur
+		}
+		return tp.Intn(n)
+	}, tasks)
+	e.Ev("registry-tasks", uint64(len(tasks)), uint64(st.Switches), b2u(st.Deadlock))
+	if st.Deadlock {
+		e.Fail("registry-deadlock", "%d tasks on one router's link registry (look-ups, IsStub, LinkCnt, a link being registered, a link being closed) stopped for good: each waits for a lock another one holds (%d task switches)", len(tasks), st.Switches)
+	}
+	for _, p := range st.Panics {
+		e.Fail("registry-panic", "a registry task panicked: %v", p)
+	}
+	if connErr != nil {
+		e.Fail("registry-refuses-new-peer", "registering a link to a new peer failed while other links were looked up and closed: %v", connErr)
+	}
+	for _, l := range N.Peering.GetLinks() {
+		if l.IsClosing() {
+			e.Fail("closing-link-found", "after the tasks a closing link to %s is still registered", l.Peer())
+		}
+	}
+	e.Fault("task_switch")
+	e.Probe("registry_methods_as_concurrent_tasks")
+}
+
 func run(e *core.Env) {
 	tp := e.Tape
 	e.StartClock()
+	if tp.Chance(1, 4) {
+		registryUnderTasks(e)
+	}
 	// Scheduling points inside the registry code: peering/ and m/ are compiled against
 	// simsync, so every Lock/Unlock/RLock/RUnlock there calls this hook, which hands the
 	// processor to another runnable goroutine with a per-run probability (0 = never). The
@@ -562,4 +639,11 @@ func TestCheck(t *testing.T) {
 		MinimiseBudget: 200,
 		Run:            run,
 	})
+}
+
+func b2u(b bool) uint64 {
+	if b {
+		return 1
+	}
+	return 0
 }
